@@ -1,7 +1,8 @@
 """C12 — printed XML and JSON are standard-conformant and mean the same to any parser."""
 from checks import textcomp, rtcomp, rtxcomp
 
-LEAN_TARGETS = ["LyModel.Props.C12"]
+LEAN_TARGETS = ["LyModel.Props.C12", "LyModel.XmlTree.OpaqDoc", "LyModel.XmlTree.OpaqOk", "LyModel.XmlTree.OpaqRoundtrip",
+                "LyModel.XmlTree.OpaqCheck", "LyModel.XmlTree.OpaqFaithful"]
 AUDIT = "Audit/C12.lean"
 GENERATED = ["XmlEsc", "JsonEsc", "JsonTyping", "XmlNsFixes"]
 ASSUMPTIONS = ["UTF-8 well-formedness of the output is judged by expat / Python json in the correspondence run, not by the Lean spec readers",
